@@ -12,6 +12,9 @@ use std::collections::HashMap;
 use std::fmt;
 use std::fmt::{Debug, Display, Formatter};
 use std::ops::Deref;
+#[cfg(rfsm_verif)]
+use crate::verif_seams::sync::{Arc, LockResult, Mutex, MutexGuard};
+#[cfg(not(rfsm_verif))]
 use std::sync::{Arc, LockResult, Mutex, MutexGuard};
 
 use crate::actions::ActionMap;
